@@ -748,7 +748,7 @@ func (ex *Exec) setSelectResult(st *State, fr *Frame, x *ssa.Select, idx int, re
 // ---------- guard discipline (C10) ----------
 
 func (ex *Exec) guardCheck(st *State, fr *Frame, p PtrVal, write bool) {
-	if st.guards == nil {
+	if st.guards == nil || !st.guardOn {
 		return
 	}
 	ex.guardCheckSlow(st, fr, p, write)
